@@ -1,6 +1,6 @@
 #!/usr/bin/env python3-vt
 """Run every check against every patch (seeded/*/patch.diff, selftest/mutants/*.diff, selftest/benign/*.diff) on scratch copies of /repo.
-Writes selftest/matrix.json: {patch: {pid: rc}} and prints a table.  usage: tools/matrix.py [-j N] [patch ...]"""
+Writes selftest/matrix.json: {patch: {pid: rc}} and prints a table.  usage: tools/matrix.py [-j N] [--pids C05,C07] [patch ...]   (--pids: re-run only these checks and merge into the stored rows)"""
 import json, os, shutil, subprocess, sys, tempfile, glob
 from concurrent.futures import ThreadPoolExecutor
 V = os.path.dirname(os.path.dirname(os.path.abspath(__file__)))
@@ -26,8 +26,13 @@ def run_patch(patch):
 def main():
     args = sys.argv[1:]
     j = 6
-    if args and args[0] == '-j':
-        j = int(args[1]); args = args[2:]
+    global PIDS
+    only = False
+    while args and args[0] in ('-j', '--pids'):
+        if args[0] == '-j':
+            j = int(args[1]); args = args[2:]
+        else:
+            PIDS = args[1].split(','); only = True; args = args[2:]
     patches = args or sorted(glob.glob(os.path.join(V, 'seeded', '*', 'patch.diff')) + glob.glob(os.path.join(V, 'selftest', 'mutants', '*.diff')) + glob.glob(os.path.join(V, 'selftest', 'benign', '*.diff')))
     # run from a snapshot of the checker, so that editing nsa/ while the matrix runs does not produce mixed results
     global SNAP
@@ -37,16 +42,18 @@ def main():
         shutil.copy(os.path.join(V, f), SNAP)
     out = {}
     mpath = os.path.join(V, 'selftest', 'matrix.json')
-    if os.path.exists(mpath) and args:
+    if os.path.exists(mpath) and (args or only):
         out = json.load(open(mpath))
     with ThreadPoolExecutor(max_workers=j) as ex:
         for patch, res in ex.map(run_patch, patches):
             key = os.path.relpath(patch, V)
+            if only and key in out and '_patch' not in res:
+                merged = dict(out[key]); merged.update(res); res = merged
             out[key] = res
             fired = [p for p in PIDS if res.get(p, {}).get('rc') == 1]
             broken = [p for p in PIDS if res.get(p, {}).get('rc') == 2]
             print('%-55s fired=%s broken=%s %s' % (key, ','.join(fired) or '-', ','.join(broken) or '-', res.get('_patch', '')), flush=True)
-    if args and os.path.exists(mpath):
+    if (args or only) and os.path.exists(mpath):
         # merge with what a concurrent run may have written meanwhile
         cur = json.load(open(mpath)); cur.update({k: out[k] for k in (os.path.relpath(p, V) for p in patches)}); out = cur
     json.dump(out, open(mpath, 'w'), indent=1, sort_keys=True)
